@@ -1,4 +1,82 @@
-(* further kinds are registered here as the model grows *)
+(* kinds of the pure / table families *)
 open Wfmodel
 open Conv
-let register (reg : string -> (string list -> string list) -> (string list -> string list -> string option) -> unit) = ()
+
+let zs l = List.map z_of_string l
+let pzs l = List.map string_of_z l
+let sb = string_of_bool
+let arity () = failwith "arity"
+
+let rs_of_int_string s = rs_of_code (z_of_string s)
+let ctlop_of s = match s with "0" -> OpPause | "1" -> OpResume | "2" -> OpCancel | "3" -> OpDeleteData | _ -> failwith "ctlop"
+
+let dummy_record st = { r_wf = N0; r_fid = N0; r_run = N0; r_state = st; r_status = z_of_int 3; r_obj = ODeleted;
+                        r_created = Z0; r_updated = Z0; r_ver = z_of_int 5; r_reason = N0; r_desc = Z0 }
+
+(* controller observation: "accepted nstores [state version status]" *)
+let ctl_model a =
+  match a with
+  | [st; op] ->
+    (match rs_of_int_string st with
+     | None -> ["0"; "0"]
+     | Some s ->
+       (match ctl_update (dummy_record s) (ctl_target (ctlop_of op)) N0 with
+        | None -> ["0"; "0"]
+        | Some r -> ["1"; "1"; string_of_z (rs_code r.r_state); string_of_z r.r_ver; string_of_z r.r_status]))
+  | _ -> arity ()
+
+(* monitor: accepted <=> documented; rejected => no store; accepted => exactly one store of the target state, version+1, same status *)
+let ctl_monitor a obs =
+  match a, obs with
+  | [st; op], (acc :: n :: rest) ->
+    let doc = (match rs_of_int_string st with None -> false | Some s -> ctl_documented s (ctlop_of op)) in
+    let acc = bool_of_string acc in
+    if acc <> doc then Some (if acc then "control operation accepted in a state that does not allow it" else "control operation rejected in a state that allows it")
+    else if not acc && n <> "0" then Some "rejected control operation wrote a record"
+    else if acc && (n <> "1" || rest <> [string_of_z (rs_code (ctl_target (ctlop_of op))); "6"; "3"]) then Some "accepted control operation did not store exactly the target state with version+1"
+    else None
+  | _ -> Some "unparsable"
+
+let register (reg : ostring -> (ostring list -> ostring list) -> (ostring list -> ostring list -> ostring option) -> unit) =
+  let equal_monitor model args obs =
+    let m = String.concat " " (model args) in
+    if m = String.concat " " obs then None else Some ("property fixes the answer [" ^ m ^ "]") in
+  let rstable a = (match a with [f; t] -> [sb (rs_table_code (z_of_string f) (z_of_string t))] | _ -> arity ()) in
+  reg "rstable" rstable (equal_monitor rstable);
+  reg "ctl" ctl_model ctl_monitor;
+  reg "webui" ctl_model ctl_monitor;
+  (* routing grid *)
+  let route a = (match a with
+    | [st; status; ver; name] ->
+      let wf = unhx name and st = z_of_string st and status = z_of_string status and ver = z_of_string ver in
+      let fid = coq_of_string "fid 1" and run = coq_of_string "run-1" in
+      let hdrs = route_headers wf fid run st status ver in
+      let get k = (try hx (List.assoc (coq_of_string k) hdrs) with Not_found -> "MISSING") in
+      let keys = List.sort compare (List.map (fun (k, _) -> string_of_coq k) hdrs) in
+      [hx wf; hx run; string_of_z (route_type status); get "topic"; get "workflow_name"; get "foreign_id"; get "run_id";
+       get "run_state"; get "record_version"; hex_of_string (String.concat "," keys)]
+    | _ -> arity ()) in
+  reg "route" route (equal_monitor route);
+  let topics a = (match a with
+    | [name; s1; s2] ->
+      let (((a1, a2), a3), a4) = topics_coincide (unhx name) (z_of_string s1) (z_of_string s2) in [sb a1; sb a2; sb a3; sb a4]
+    | _ -> arity ()) in
+  reg "topics" topics
+    (fun a obs -> match a, obs with
+       | [_; s1; s2], [c12; cd; cr; dr] ->
+         if s1 <> s2 && c12 = "1" then Some "topics of two different statuses coincide"
+         else if s1 = s2 && c12 = "0" then Some "topic is not a function of (name, status)"
+         else if cd = "1" || cr = "1" || dr = "1" then Some "status / delete / run-state-change topics coincide"
+         else None
+       | _ -> Some "unparsable");
+  (* error counter *)
+  let counter ops =
+    let key s = (match String.split_on_char '.' s with
+      | [e; p; r] -> ((n_of_string e, n_of_string p), n_of_string r) | _ -> failwith "key") in
+    let c = ref [] and res = ref [] in
+    List.iter (fun op ->
+      let k = key (String.sub op 1 (String.length op - 1)) in
+      if op.[0] = 'a' then begin let (c', n) = c_add !c k in c := c'; res := string_of_int (int_of_nat n) :: !res end
+      else c := c_clear !c k) ops;
+    List.rev !res in
+  reg "counter" counter (equal_monitor counter)
